@@ -42,6 +42,7 @@ def main():
         if os.path.isdir(os.path.join(bak, "replays")):
             shutil.rmtree(os.path.join(V, "replays"), ignore_errors=True); shutil.copytree(os.path.join(bak, "replays"), os.path.join(V, "replays"))
         shutil.rmtree(bak, ignore_errors=True)
+        sh(f"cd {V} && timeout 3000 /venv/bin/python check.py --setup")   # regenerate the model from the restored tree
     print(json.dumps(out, indent=1)[:4000])
 
 
